@@ -35,6 +35,7 @@ type caseDef struct {
 	BCfg   *bcfg     `json:"bcfg,omitempty"`   // part 4
 	P9a    *p9aCase  `json:"p9a,omitempty"`    // part 9a
 	RShard *p1bShard `json:"rshard,omitempty"` // part 6 (= part 1b: import matching against re-exports)
+	P10    *p10Shard `json:"p10,omitempty"`    // part 10 (segment lists x feature configuration), with Engine
 }
 
 var p2Configs = []gcfg{{"EI", false}, {"EIJ", false}, {"EI", true}, {"EIJ", true}}
@@ -71,6 +72,12 @@ func buildCases(tier string, u *universe) (cs []caseDef) {
 	for _, c := range p9aCases() {
 		c := c
 		cs = append(cs, caseDef{Part: 9, P9a: &c})
+	}
+	for _, sh := range p10Shards() {
+		sh := sh
+		for _, en := range engineNames {
+			cs = append(cs, caseDef{Part: 10, P10: &sh, Engine: en})
+		}
 	}
 	for a := range p9Alphabet() {
 		cs = append(cs, caseDef{Part: 9, Prefix: []int{a}, Depth: 3})
@@ -133,6 +140,7 @@ type caseResult struct {
 	States   []uint64          `json:"states,omitempty"`
 	Trans    []uint64          `json:"trans,omitempty"`
 	Pairs    []uint64          `json:"pairs,omitempty"` // part 1: distinct (current export type, import type) pairs
+	Progs    []uint64          `json:"progs,omitempty"` // part 10: distinct (feature configuration, program) pairs
 	Viols    []json.RawMessage `json:"viols,omitempty"`
 	Flaky    []string          `json:"flaky,omitempty"`
 	Sample   any               `json:"sample,omitempty"`
@@ -323,6 +331,21 @@ func (cs *childState) runCase(cd caseDef) caseResult {
 			names = append(names, alpha[k].String())
 		}
 		res.Sample = map[string]any{"part": 8, "last_word_of_case": names}
+	case 10:
+		oc, evals, reads, progs, vs, flaky := runP10Shard(cd.Engine, cs.tier, *cd.P10)
+		res.Evals, res.Reads, res.Progs, res.Flaky = evals, reads, progs, flaky
+		for k, v := range oc {
+			res.Outcomes[k] = v
+		}
+		perSig := map[string]int{}
+		for _, v := range vs {
+			if perSig[v.Sig]++; perSig[v.Sig] > 2 { // the first two programs per signature and shard are enough to replay
+				continue
+			}
+			b, _ := json.Marshal(v)
+			res.Viols = append(res.Viols, b)
+		}
+		res.Sample = map[string]any{"part": 10, "engine": cd.Engine, "features": cd.P10.Feat, "programs": evals}
 	case 7:
 		oc, evals, vs := runP7(cd.Engine)
 		res.Evals = evals
@@ -658,6 +681,20 @@ func doReplay(file string) {
 			fmt.Printf("  STILL FAILS: %s: %s\n", v.Sig, v.What)
 			failed = true
 		}
+	case 10:
+		var r struct {
+			Prog p10Prog `json:"prog"`
+		}
+		json.Unmarshal(doc.Replay, &r)
+		for _, en := range engineNames {
+			e := newP10Env(en, r.Prog.Feat)
+			_, _, vs := e.run(r.Prog, func(s string) { fmt.Println(s) })
+			e.close()
+			for _, v := range vs {
+				fmt.Printf("  STILL FAILS: %s: %s\n", v.Sig, v.What)
+				failed = true
+			}
+		}
 	case 7:
 		for _, en := range engineNames {
 			_, n, vs := runP7(en)
@@ -800,7 +837,8 @@ func main() {
 	outcomes := fw.NewCounter()
 	samples := fw.NewSampler(16)
 	states, trans, pairs := map[uint64]struct{}{}, map[uint64]struct{}{}, map[uint64]struct{}{}
-	var p1Evals, p2Evals, p4Evals, p4Steps, p5Evals, p5Steps, p8Evals, p9Evals, steps, na, reads, engcmp, crashes int64
+	var p1Evals, p2Evals, p4Evals, p4Steps, p5Evals, p5Steps, p8Evals, p9Evals, p10Evals, steps, na, reads, engcmp, crashes int64
+	progs := map[uint64]struct{}{}
 	var flaky []string
 	stopped := false
 	var retry []int
@@ -822,6 +860,11 @@ func main() {
 			p8Evals += r.Evals
 		case 9:
 			p9Evals += r.Evals
+		case 10:
+			p10Evals += r.Evals
+			for _, h := range r.Progs {
+				progs[h] = struct{}{}
+			}
 		default:
 			p1Evals += r.Evals
 		}
@@ -893,6 +936,10 @@ func main() {
 				if cd.Part == 8 {
 					desc = fmt.Sprintf("part 8 words starting with %s", p8Alphabet()[cd.Prefix[0]])
 					sig = "crash:p8"
+				}
+				if cd.Part == 10 {
+					desc = fmt.Sprintf("part 10 (segment lists, features %s, %s)", cd.P10.Feat, cd.Engine)
+					sig = "crash:p10:" + cd.P10.Feat
 				}
 				if cd.Part == 6 {
 					desc = fmt.Sprintf("part 1b layout %s chain %d", cd.RShard.Layout, cd.RShard.Chain)
@@ -988,18 +1035,34 @@ func main() {
 		}
 		bounds["part8"] = map[string]any{"alphabet": len(names), "depth": 3, "steps": strings.Join(names, " "), "what": "one compiled consumer per word, instantiated once per step against a fresh provider instance of the step's variant"}
 	}
+	{
+		names := func(ss []p10Seg) string {
+			var n []string
+			for _, s := range ss {
+				n = append(n, s.Name)
+			}
+			return strings.Join(n, " ")
+		}
+		lens := "(<=1 element, <=2 data segments) u (<=2, <=1)"
+		if run.Thorough() {
+			lens = "<=2 element, <=3 data segments"
+		}
+		bounds["part10"] = map[string]any{"features": "v1 (api.CoreFeaturesV1: all-or-nothing segments), v1+bulk-memory+reference-types, v2+threads", "owner_memory": "1 page | grown to 2 pages before the importer links", "data_shapes(bytes@offset)": names(p10DataShapes), "element_shapes(items@offset)": names(p10ElemShapes),
+			"lists": lens, "start": "none | store;unreachable", "v2_restriction": "element shapes that are out of bounds are generated for v1 only (v2: open findings of part 2)"}
+	}
 	om := outcomes.Map()
 	run.Finish(fw.Coverage{
-		Evaluations:     p1Evals + p2Evals + p4Evals + p5Evals + p8Evals + p9Evals,
-		DistinctNontriv: int64(len(pairs)) + int64(len(trans)),
+		Evaluations:     p1Evals + p2Evals + p4Evals + p5Evals + p8Evals + p9Evals + p10Evals,
+		DistinctNontriv: int64(len(pairs)) + int64(len(trans)) + int64(len(progs)),
 		States:          int64(len(states)), Transitions: steps, TracesValidated: steps,
 		Rule: "part 1: distinct (current external type of the export, declared import type) pairs, each instantiated on both engines; " +
 			"part 2: distinct (graph configuration, model state, applicable operation) triples — every one executed on both engines from a freshly " +
-			"instantiated graph (no state merging during execution); steps whose instance is already closed are counted separately as not_applicable_steps and are not transitions",
+			"instantiated graph (no state merging during execution); steps whose instance is already closed are counted separately as not_applicable_steps and are not transitions; " +
+			"part 10: distinct (feature configuration, segment-list program) pairs, each instantiated on both engines",
 		Samples: samples.List(), Exhaustive: true, Outcomes: om, Bounds: bounds,
 		Extra: map[string]any{
 			"part1_instantiations": p1Evals, "part1b_layouts": p1bLayoutNames, "part1_distinct_type_pairs": len(pairs),
-			"part2_word_executions": p2Evals, "part4_word_executions": p4Evals, "part4_steps": p4Steps, "part5_word_executions": p5Evals, "part5_steps": p5Steps, "part8_word_executions": p8Evals, "part9_evaluations": p9Evals, "parts245_distinct_state_op_pairs": len(trans), "parts245_not_applicable_steps": na,
+			"part2_word_executions": p2Evals, "part4_word_executions": p4Evals, "part4_steps": p4Steps, "part5_word_executions": p5Evals, "part5_steps": p5Steps, "part8_word_executions": p8Evals, "part9_evaluations": p9Evals, "part10_instantiations": p10Evals, "part10_distinct_programs": len(progs), "parts245_distinct_state_op_pairs": len(trans), "parts245_not_applicable_steps": na,
 			"parts245_reads_compared_with_model": reads, "parts245_engine_lockstep_comparisons": engcmp, "child_crashes": crashes, "watchdog_reruns": len(retry),
 			"cases": len(cases), "cases_completed": done,
 		},
